@@ -211,6 +211,37 @@ Tr_C17_planned(A, B) ==
       /\ \A p \in NewClaims(A, B) : p[3] > 0 => B.procs[p].m = cfg.plan[TaskOf(p)].m
       /\ \A t \in DOMAIN A.tasks : (t \in DOMAIN B.tasks /\ A.tasks[t].m # NoM) => B.tasks[t].m = A.tasks[t].m
 
+(* ------------------------------- C18 ------------------------------------ *)
+Movers(X) == {q \in DOMAIN X.procs : q[1] \in {"H2C", "C2H"} /\ X.procs[q].started}
+(* what leaves one tier enters the other, at the slower of the two rates    *)
+Tr_C18_step(A, B) ==
+    (A.buf.hotFree # B.buf.hotFree /\ A.buf.hotFin = B.buf.hotFin
+     /\ \A o \in ObsNames : A.obs[o].data = B.obs[o].data)
+    => /\ (B.buf.hotFree - A.buf.hotFree) = -(B.buf.coldFree - A.buf.coldFree)
+       /\ \E q \in Movers(B) \cup Movers(A) :
+            LET o == IF q \in Movers(B) THEN B.procs[q].ph ELSE A.procs[q].ph
+                before == IF q \in Movers(A) THEN A.procs[q].left ELSE B.obs[o].data
+                amount == IF B.buf.hotFree > A.buf.hotFree THEN B.buf.hotFree - A.buf.hotFree
+                          ELSE A.buf.hotFree - B.buf.hotFree
+            IN amount = MinI(before, MinI(cfg.hotRate, cfg.coldRate))
+(* a finished move leaves the observation stored in exactly one tier and   *)
+(* both transfer slots empty                                               *)
+Tr_C18_done(A, B) ==
+    \A q \in Movers(A) \ DOMAIN B.procs :
+        LET o == A.procs[q].ph
+        IN (B.pend = "" /\ ~\E e \in SeqToSet(B.queue) : e.pid[1] = "CRASH") =>
+             /\ Cardinality({i \in 1..Len(B.buf.hotStored) : B.buf.hotStored[i] = o})
+                + Cardinality({i \in 1..Len(B.buf.coldStored) : B.buf.coldStored[i] = o}) = 1
+             /\ (Movers(B) = {} => (B.buf.hotTr = "" /\ B.buf.coldTr = ""))
+(* a move that is refused (its process ends in its first step without     *)
+(* having moved anything) leaves the buffer as it was                      *)
+Tr_C18_refused(A, B) ==
+    \A q \in {q \in DOMAIN A.procs : q[1] \in {"H2C", "C2H"} /\ ~A.procs[q].started} :
+        (q \notin DOMAIN B.procs /\ B.buf.hotFree = A.buf.hotFree /\ B.buf.coldFree = A.buf.coldFree
+         /\ ~\E e \in SeqToSet(B.queue) : e.pid[1] = "CRASH")
+        => B.buf = A.buf
+Inv_C18_nomove_raises(X) == ~\E e \in SeqToSet(X.queue) : e.pid[1] = "CRASH" /\ e.pid[2] = "RuntimeError" /\ Movers(X) # {}
+
 (* ------------------------------- C19 ------------------------------------ *)
 (* q: the five query results as the implementation (or the spec) gave them *)
 Truth_C19(X, q) ==
@@ -302,7 +333,8 @@ InvHolds(X, n) ==
 TrNames == <<"C01.noreclaim", "C02.boundary", "C03.precedence", "C03.exact", "C04.once",
              "C06.runtime", "C07.deposit", "C07.release", "C08.begin", "C08.status",
              "C08.ingest", "C08.ontime", "C09.onlyReserved", "C09.exclusive", "C09.size",
-             "C09.released", "C12.rowcount", "C15.flag", "C17.planned">>
+             "C09.released", "C12.rowcount", "C15.flag", "C17.planned",
+             "C18.step", "C18.done", "C18.refused">>
 TrHolds(A, B, n) ==
     CASE n = "C01.noreclaim" -> Tr_C01_noreclaim(A, B) [] n = "C02.boundary" -> Tr_C02_boundary(A, B)
       [] n = "C03.precedence" -> (cfg.alg = "adv" \/ Tr_C03_precedence(A, B))
@@ -315,4 +347,6 @@ TrHolds(A, B, n) ==
       [] n = "C09.size" -> Tr_C09_size(A, B) [] n = "C09.released" -> Tr_C09_released(A, B)
       [] n = "C12.rowcount" -> Tr_C12_rowcount(A, B) [] n = "C15.flag" -> Tr_C15_flag(A, B)
       [] n = "C17.planned" -> Tr_C17_planned(A, B)
+      [] n = "C18.step" -> Tr_C18_step(A, B) [] n = "C18.done" -> Tr_C18_done(A, B)
+      [] n = "C18.refused" -> Tr_C18_refused(A, B)
 =============================================================================
